@@ -33,8 +33,10 @@ def parseEntry (s : String) : Lru.Entry :=
   | [k, v, z] => ⟨nat! k, nat! v, nat! z⟩
   | _ => ⟨0, 0, 0⟩
 
+/-- `x` = {Finished: true, Progressed: false}: for the oracle it is a Finished (and a DIFF, see `badProg`) -/
 def parseProg : String → Progress
   | "f" => .finished
+  | "x" => .finished
   | _ => .none
 
 structure ImplObs where
